@@ -428,3 +428,71 @@ def assist_proposals(run, twin=None):
             prove('%s-proposals-marker-free' % path, z3.Not(occurs),
                   clause='no proposal contains the internal cursor marker', path=p)
         core.explore(body, on_path)
+
+
+class TagSet(object):
+    """set(x) / a | b as a term: what the proposals are computed from"""
+    def __init__(self, *parts):
+        self.parts = parts
+
+    def __or__(self, o):
+        return TagSet(*(self.parts + o.parts))
+
+    def union(self, o):
+        return self | o
+
+
+@harness('C12', 'supp.assistant.assist[proposals at the import return sites] / list_packages')
+def assist_import_proposals(run):
+    """`from m import na|me`: proposals == sorted(set(submodules of m) | set(attributes of m)): sorted and duplicate-free by construction;
+    `import a.b|` / `from a.b|`: proposals == list_packages(...), which is sorted(<a set>) (empty when the package cannot be resolved)"""
+    import supp.assistant as A
+    PL, AL = ['<submodules>'], ['<attributes>']
+    seen = {}
+
+    class Mod(object):
+        def attr_list(self, ctx):
+            return AL
+
+    class Proj(object):
+        def get_nmodule(self, head, filename):
+            return Mod()
+
+    def sorted_stub(x, **kw):
+        return ('sorted', x)
+
+    def set_stub(x=()):
+        return TagSet(x)
+    f = loader.load(MOD, 'assist', stubs=dict(
+        Source=lambda source, filename, position: source, EvalCtx=lambda project: object(), re=ReStub(),
+        get_marked_import=lambda tree: seen['marked'], list_packages=lambda project, root, filename: PL,
+        sorted=sorted_stub, set=set_stub, list=lambda x: ('list', x), print_dump=lambda tree: None))
+
+    def go(path):
+        class Src(object):
+            tree = None
+            lines = ['from m import na']
+        seen['marked'] = ('m', 'name')
+        r = f(Proj(), Src(), (1, 16), 'f.py')
+        ok = isinstance(r, tuple) and isinstance(r[1], tuple) and r[1][0] == 'sorted' and isinstance(r[1][1], TagSet) \
+            and sorted(map(id, r[1][1].parts)) == sorted(map(id, (PL, AL)))
+        prove('from-import-proposals-are-sorted-set-union', ok,
+              clause='proposals == sorted(set(submodules) | set(module attributes)): sorted, each identifier once [%r]' % (r[1],), path=path)
+        seen['marked'] = ('a.b', None)
+        r = f(Proj(), Src(), (1, 16), 'f.py')
+        prove('module-name-proposals-are-the-package-listing', r[1] is PL, path=path)
+        # assistant.list_packages itself
+        lp = loader.load(MOD, 'list_packages', stubs=dict(sorted=sorted_stub))
+        the_set = {'x', 'y'}
+
+        class P2(object):
+            def norm_package(self, root, filename):
+                return 'abs.' + root
+
+            def list_packages(self, root):
+                assert root == 'abs.r'
+                return the_set
+        r = lp(P2(), 'r', 'f.py')
+        ok = isinstance(r, tuple) and r[0] == 'sorted' and sorted(r[1]) == ['x', 'y']
+        prove('list-packages-is-sorted-of-a-set', ok, clause='list_packages == sorted(project.list_packages(normalised root)) [%r]' % (r,), path=path)
+    core.explore(lambda: None, lambda p, out: go(p))
